@@ -114,4 +114,83 @@ theorem C09_lists_uncounted (st : GState) (nodes : List Node) (c : Class) (hne :
   · have : classify false st n = .cordoned := by unfold classify; simp [hn]
     simp [this, hne.symm]
 
+/-! ### The whole scan is blind to what a cordoned node offers -/
+
+/-- Replace the allocatable resources of every cordoned node by arbitrary other values. -/
+def reAlloc (f : Node → Int × Int) (n : Node) : Node :=
+  if n.unschedulable then { n with allocCPU := (f n).1, allocMem := (f n).2 } else n
+
+theorem reAlloc_unsched (f : Node → Int × Int) (n : Node) : (reAlloc f n).unschedulable = n.unschedulable := by
+  unfold reAlloc; split <;> rfl
+
+theorem classify_reAlloc (f : Node → Int × Int) (st : GState) (n : Node) :
+    classify false st (reAlloc f n) = classify false st n := by
+  unfold reAlloc
+  split
+  · rename_i h; unfold classify; simp [h]
+  · rfl
+
+theorem nodesOf_reAlloc (f : Node → Int × Int) (st : GState) (c : Class) (hne : c ≠ .cordoned) (nodes : List Node) :
+    nodesOf false st c (nodes.map (reAlloc f)) = nodesOf false st c nodes := by
+  unfold nodesOf
+  induction nodes with
+  | nil => rfl
+  | cons n ns ih =>
+    simp only [List.map_cons, List.filter_cons, classify_reAlloc]
+    by_cases hc : classify false st n = c
+    · have hu : n.unschedulable = false := by
+        cases hn : n.unschedulable
+        · rfl
+        · exfalso; apply hne; rw [← hc]; unfold classify; simp [hn]
+      have : reAlloc f n = n := by unfold reAlloc; simp [hu]
+      simp [hc, this, ih]
+    · simp [hc, ih]
+
+theorem withCache_reAlloc (f : Node → Int × Int) (st : GState) (nodes : List Node) :
+    withCache st (nodes.map (reAlloc f)) = withCache st nodes := by
+  unfold withCache
+  have : (nodes.map (reAlloc f)).find? (fun n => !n.unschedulable) = nodes.find? (fun n => !n.unschedulable) := by
+    induction nodes with
+    | nil => rfl
+    | cons n ns ih =>
+      simp only [List.map_cons, List.find?_cons, reAlloc_unsched]
+      cases hn : n.unschedulable
+      · have : reAlloc f n = n := by unfold reAlloc; simp [hn]
+        simp [this]
+      · simpa using ih
+  rw [this]
+
+theorem filter_map_inv {α β : Type} (r : α → α) (P : α → Bool) (G : α → β) (hP : ∀ a, P (r a) = P a) (hG : ∀ a, G (r a) = G a)
+    (l : List α) : ((l.map r).filter P).map G = (l.filter P).map G := by
+  induction l with
+  | nil => rfl
+  | cons a as ih =>
+    simp only [List.map_cons, List.filter_cons, hP]
+    split
+    · simp only [List.map_cons, hG, ih]
+    · exact ih
+
+theorem newNodeMetrics_reAlloc (f : Node → Int × Int) (o : Oracle) (k : Nat) (st : GState) (nodes : List Node) :
+    newNodeMetrics o k st (nodes.map (reAlloc f)) = newNodeMetrics o k st nodes := by
+  have hc : ∀ n, (reAlloc f n).created = n.created := by intro n; unfold reAlloc; split <;> rfl
+  have hp : ∀ n, (reAlloc f n).providerID = n.providerID := by intro n; unfold reAlloc; split <;> rfl
+  unfold newNodeMetrics
+  split
+  · exact filter_map_inv (reAlloc f) _ _ (by intro a; simp only [hc, hp]) (by intro a; simp only [hp]) nodes
+  · rfl
+
+/-- **C09 (never counted, whole scan).** Outside dry mode the complete result of a group scan — decision,
+    every call, new controller state, provider state — is the same whatever allocatable CPU and memory
+    the cordoned nodes of the listing report. -/
+theorem C09_alloc_irrelevant (rnd : Rat → Rat) (o : Oracle) (k : Nat) (cfg : GroupCfg) (st0 : GState) (g : PGroup)
+    (pods : List Pod) (nodes : List Node) (h : Hints) (nowMock nowReal : Int) (f : Node → Int × Int)
+    (hdry : cfg.dryMode = false) :
+    scanGroup rnd o k false cfg st0 g ⟨pods, nodes.map (reAlloc f)⟩ h nowMock nowReal =
+      scanGroup rnd o k false cfg st0 g ⟨pods, nodes⟩ h nowMock nowReal := by
+  unfold scanGroup
+  simp only [hdry, Bool.or_self, withCache_reAlloc, List.length_map]
+  rw [nodesOf_reAlloc f _ .untainted (by decide), nodesOf_reAlloc f _ .tainted (by decide), nodesOf_reAlloc f _ .force (by decide)]
+  unfold scanDecide
+  simp only [newNodeMetrics_reAlloc]
+
 end Esc.P
